@@ -75,6 +75,8 @@ def run(ctx: core.Ctx):
                   "outcome": r["outcome"], "nbh": r.get("nbh"), "H": r.get("H")} if i < 3 else None)
         if "boundary" in r:
             ctx.count(f"window-end-{r['boundary']['side']}")
+        if r.get("twin_first"):
+            ctx.count("preceded-by-sibling-design:" + str(r["twin_first"]).split()[0])
         # every field the search evaluated was simulated with the requested flow (both flow types)
         for e in r.get("evals", []):
             if "mflow" not in e or not e["nbh"]:
@@ -121,6 +123,30 @@ def run(ctx: core.Ctx):
             else:
                 ctx.finding("rebuilt-at-returned-height-large", f"{g}: {eb:.4g} K over the limit when rebuilt at the returned height",
                             {"cfg": r["cfg"], "oracle_a": r["oracle_a"], "oracle_b": r["oracle_b"]})
+    # a second project on the SAME manager (partial: only loads and geometry re-applied; full: every
+    # setter called again with another horizon, other limits, another grout): the design returned for
+    # configuration B is judged for B from fresh objects
+    by_id = {r["id"]: (c, r) for c, r in zip(cfgs, recs)}
+    for cfg, r in zip(cfgs, recs):
+        sec = r.get("second")
+        cb, rb = by_id.get(sec["id"], (None, None)) if sec else (None, None)
+        if not sec or cb is None or sec.get("outcome") != "design" or "oracle_a" not in sec:
+            continue
+        ctx.count(f"second-project:{sec.get('mode', 'partial')}")
+        ctx.case(("second", r["id"], sec["id"]), True)
+        same = rb["outcome"] == "design" and rb["nbh"] == sec["nbh"] and abs(rb["H"] - sec["H"]) <= 1e-6 * max(1.0, abs(rb["H"]))
+        if not same:
+            ctx.disagreements_checked += 1
+            if "second-project-on-reused-manager-differs-from-fresh-manager" not in ctx.broken:
+                ctx.broken.append("second-project-on-reused-manager-differs-from-fresh-manager")
+                ctx.extra["first_history_disagreement"] = {"first": r["cfg"], "second": rb["cfg"], "reused": {k: sec.get(k) for k in ("nbh", "H", "mode")}, "fresh": {k: rb.get(k) for k in ("outcome", "nbh", "H")}}
+        escape_possible = designlib.is_escape(sec) if sec.get("evals") else (bool(cb.get("cont")) and not (same and not designlib.is_escape(rb)))
+        ea2 = designlib.excess_of(cb, *sec["oracle_a"])
+        if not escape_possible and ea2 > 1e-3:
+            ctx.finding("infeasible-design-on-reused-manager", f"{cb['geom'][0]}: the second project on a re-used manager ({sec.get('mode', 'partial')} re-configuration) returned {sec['nbh']} x {sec['H']:.3f} m, "
+                        f"which misses project B's limits by {ea2:.4g} K over its {cb['months']}-month horizon (fresh manager: {rb.get('nbh')} x {rb.get('H')})",
+                        {"first_project": r["cfg"], "second_project": rb["cfg"], "mode": sec.get("mode"), "reused_manager_result": {k: sec.get(k) for k in ("nbh", "H", "oracle_a")},
+                         "fresh_manager_result": {k: rb.get(k) for k in ("outcome", "nbh", "H")}})
     ctx.extra["contracts_measured"] = {
         "lipschitz_max_K_per_m": max(lips) if lips else None,
         "consistency_max_abs_K(objective(maxH) vs search excess)": max(consist) if consist else None,
